@@ -5,6 +5,7 @@ import (
 	"encoding/xml"
 	"errors"
 	"fmt"
+	"math"
 	"strings"
 	"time"
 
@@ -167,6 +168,17 @@ func c01Case(w *rt.W, st *c01State, y int64, m, d int, slow bool) {
 				}
 			}
 			w.Eval(49 + 208)
+		}
+		if y >= 0 && y <= 9999 { // the exported layouts for package time spell the same two texts
+			if s1, s2 := dt.Time().Format(date.TimeFormatExtended), dt.Time().Format(date.TimeFormatBasic); s1 != wantE || s2 != wantB {
+				c01Fail(w, "out-time-layout", y, m, d, "Time().Format(TimeFormatExtended / TimeFormatBasic)", s1+" "+s2, wantE+" "+wantB)
+			}
+			t1, e1 := time.Parse(date.TimeFormatExtended, wantE)
+			t2, e2 := time.Parse(date.TimeFormatBasic, wantB)
+			if e1 != nil || e2 != nil || !date.FromTime(t1).Equal(dt) || !date.FromTime(t2).Equal(dt) {
+				c01Fail(w, "in-time-layout", y, m, d, "time.Parse(TimeFormatExtended / TimeFormatBasic) then FromTime", fmt.Sprint(date.FromTime(t1), " ", date.FromTime(t2), " ", e1, " ", e2), wantE)
+			}
+			w.Eval(4)
 		}
 		if s := fmt.Sprintf("%+v", struct{ D date.Date }{dt}); s != "{D:"+wantE+"}" {
 			c01Fail(w, "out-verb", y, m, d, "Sprintf %+v of a struct holding the date", s, "{D:"+wantE+"}")
@@ -429,7 +441,7 @@ func runC01(c *rt.Ctx) {
 	}
 	years = append(years, 999999999, 999999998, 500000000, 123456789, 100004, 99996, 400000, 400004)
 	nSeeded := c.Pick(20000, 2000000)
-	for _, limit := range []int{0, 11, 12, 13, 14, 15} {
+	for _, limit := range []int{0, 11, 12, 13, 14, 15, math.MaxInt32, math.MaxInt, math.MaxInt - 1} { // raised a little, raised "to infinity", disabled
 		date.MaxInputLength = limit
 		c.Parallel(fmt.Sprintf("bigyears-%d", limit), 0, func(w *rt.W) {
 			st := &c01State{}
@@ -493,28 +505,35 @@ func runC01(c *rt.Ctx) {
 	// configuration: a package-level Formatter that fails; String and the verbs fall back to DefaultFormatter
 	{
 		oldF := date.Formatter
-		date.Formatter = func(buf []byte, d date.Date, f date.Format) ([]byte, error) {
-			return nil, errors.New("formatter refuses")
-		}
-		c.Serial("failing-formatter", func(w *rt.W) {
-			for _, ymd := range [][3]int{{1, 1, 1}, {0, 1, 1}, {2000, 2, 29}, {9999, 12, 31}, {476, 9, 4}, {2021, 10, 9}} {
-				dt := date.New(ymd[0], date.Month(ymd[1]), ymd[2])
-				wantE, wantB := ref.DateText(int64(ymd[0]), ymd[1], ymd[2], false), ref.DateText(int64(ymd[0]), ymd[1], ymd[2], true)
-				for _, vb := range []struct{ verb, want string }{{"%s", wantE}, {"%v", wantE}, {"%e", wantE}, {"%b", wantB}} {
-					if g := fmt.Sprintf(vb.verb, dt); g != vb.want {
-						c01Fail(w, "failing-formatter-fallback", int64(ymd[0]), ymd[1], ymd[2], "Sprintf "+vb.verb+" with a failing Formatter", g, vb.want)
-					}
+		for _, withBytes := range []bool{false, true} {
+			withBytes := withBytes
+			date.Formatter = func(buf []byte, d date.Date, f date.Format) ([]byte, error) {
+				if withBytes { // the usual shape of a wrapper: the bytes it has together with its error
+					b, _ := date.DefaultFormatter(buf, d, f)
+					return append(b, "?!"...), errors.New("formatter refuses")
 				}
-				if g := dt.String(); g != wantE {
-					c01Fail(w, "failing-formatter-fallback", int64(ymd[0]), ymd[1], ymd[2], "String with a failing Formatter", g, wantE)
-				}
-				if b, err := dt.MarshalText(); err == nil {
-					c01Fail(w, "failing-formatter-fallback", int64(ymd[0]), ymd[1], ymd[2], "MarshalText with a failing Formatter", string(b), "an error")
-				}
-				w.Eval(6)
-				w.ClassN("failing-formatter", 1)
+				return nil, errors.New("formatter refuses")
 			}
-		})
+			c.Serial("failing-formatter", func(w *rt.W) {
+				for _, ymd := range [][3]int{{1, 1, 1}, {0, 1, 1}, {2000, 2, 29}, {9999, 12, 31}, {476, 9, 4}, {2021, 10, 9}} {
+					dt := date.New(ymd[0], date.Month(ymd[1]), ymd[2])
+					wantE, wantB := ref.DateText(int64(ymd[0]), ymd[1], ymd[2], false), ref.DateText(int64(ymd[0]), ymd[1], ymd[2], true)
+					for _, vb := range []struct{ verb, want string }{{"%s", wantE}, {"%v", wantE}, {"%e", wantE}, {"%b", wantB}} {
+						if g := fmt.Sprintf(vb.verb, dt); g != vb.want {
+							c01Fail(w, "failing-formatter-fallback", int64(ymd[0]), ymd[1], ymd[2], "Sprintf "+vb.verb+" with a failing Formatter", g, vb.want)
+						}
+					}
+					if g := dt.String(); g != wantE {
+						c01Fail(w, "failing-formatter-fallback", int64(ymd[0]), ymd[1], ymd[2], "String with a failing Formatter", g, wantE)
+					}
+					if b, err := dt.MarshalText(); err == nil {
+						c01Fail(w, "failing-formatter-fallback", int64(ymd[0]), ymd[1], ymd[2], "MarshalText with a failing Formatter", string(b), "an error")
+					}
+					w.Eval(6)
+					w.ClassN("failing-formatter", 1)
+				}
+			})
+		}
 		date.Formatter = oldF
 	}
 	// call histories: canonical texts of equal length colliding under weak checksums, parsed back to back through every input path
